@@ -261,3 +261,205 @@ def emit_reduce(rows) -> str:
             f"Definition gen_keep_{fname} (keep : bool) : bool := {keep}.\n"
             f'Definition gen_op_{fname} : string := "{op}"%string.\n\n')
     return "".join(parts)
+
+
+# ------------------------------------------------------------------ _index.py (C08) -------
+
+class _Fresh:
+    def __init__(self):
+        self.n = 0
+
+    def __call__(self, base="t"):
+        self.n += 1
+        return f"{base}{self.n}"
+
+
+def _pe(node, fresh) -> str:
+    """Python expression -> Gallina term of type M pyval."""
+    if isinstance(node, ast.Name):
+        if node.id in ("Ellipsis",):
+            return "(Ret PEllipsis)"
+        return f"(Ret v_{node.id})"
+    if isinstance(node, ast.Constant):
+        v = node.value
+        if v is None:
+            return "(Ret PNone)"
+        if v is Ellipsis:
+            return "(Ret PEllipsis)"
+        if isinstance(v, bool):
+            return f"(Ret (PBool {'true' if v else 'false'}))"
+        if isinstance(v, int):
+            return f"(Ret (PInt ({v})))"
+        raise Untranslatable(f"constant {v!r}")
+    if isinstance(node, ast.Attribute):
+        # np.iinfo(np.int64).max / .min
+        if node.attr in ("max", "min") and isinstance(node.value, ast.Call) and ast.unparse(node.value) == "np.iinfo(np.int64)":
+            return f"(Ret (PInt INDEX_{'MAX' if node.attr == 'max' else 'MIN'}))"
+        if node.attr in ("start", "stop", "step"):
+            return f"(bind {_pe(node.value, fresh)} attr_{node.attr})"
+        raise Untranslatable("attribute " + ast.unparse(node))
+    if isinstance(node, ast.IfExp):
+        c = fresh("c")
+        return f"(bind {_pe(node.test, fresh)} (fun {c} => if truthy {c} then {_pe(node.body, fresh)} else {_pe(node.orelse, fresh)}))"
+    if isinstance(node, ast.BoolOp):
+        vals = node.values
+        acc = _pe(vals[-1], fresh)
+        for v in reversed(vals[:-1]):
+            t = fresh("b")
+            if isinstance(node.op, ast.Or):
+                acc = f"(bind {_pe(v, fresh)} (fun {t} => if truthy {t} then Ret {t} else {acc}))"
+            else:
+                acc = f"(bind {_pe(v, fresh)} (fun {t} => if truthy {t} then {acc} else Ret {t}))"
+        return acc
+    if isinstance(node, ast.UnaryOp) and isinstance(node.op, ast.Not):
+        t = fresh("n")
+        return f"(bind {_pe(node.operand, fresh)} (fun {t} => Ret (PBool (negb (truthy {t})))))"
+    if isinstance(node, ast.Compare) and len(node.ops) == 1:
+        op, r = node.ops[0], node.comparators[0]
+        a, b = fresh("l"), fresh("r")
+        if isinstance(op, (ast.Is, ast.IsNot)):
+            if isinstance(r, ast.Constant) and r.value is None:
+                e = f"py_is_none {a}"
+            elif isinstance(r, ast.Name) and r.id == "Ellipsis":
+                e = f"match {a} with PEllipsis => true | _ => false end"
+            else:
+                raise Untranslatable("is-comparison " + ast.unparse(node))
+            if isinstance(op, ast.IsNot):
+                e = f"negb ({e})"
+            return f"(bind {_pe(node.left, fresh)} (fun {a} => Ret (PBool ({e}))))"
+        if isinstance(op, (ast.Eq, ast.NotEq)):
+            e = f"py_eq {a} {b}"
+            if isinstance(op, ast.NotEq):
+                e = f"negb ({e})"
+            return f"(bind {_pe(node.left, fresh)} (fun {a} => bind {_pe(r, fresh)} (fun {b} => Ret (PBool ({e})))))"
+        fn = {ast.Gt: "py_gt", ast.Lt: "py_lt", ast.GtE: "py_ge", ast.LtE: "py_le"}.get(type(op))
+        if fn is None:
+            raise Untranslatable("comparison " + ast.unparse(node))
+        q = fresh("q")
+        return f"(bind {_pe(node.left, fresh)} (fun {a} => bind {_pe(r, fresh)} (fun {b} => bind ({fn} {a} {b}) (fun {q} => Ret (PBool {q})))))"
+    if isinstance(node, ast.Call) and isinstance(node.func, ast.Name):
+        if node.func.id == "slice" and len(node.args) == 3 and not node.keywords:
+            a, b, c = fresh("a"), fresh("b"), fresh("c")
+            return (f"(bind {_pe(node.args[0], fresh)} (fun {a} => bind {_pe(node.args[1], fresh)} (fun {b} => "
+                    f"bind {_pe(node.args[2], fresh)} (fun {c} => Ret (PSlice {a} {b} {c})))))")
+        if node.func.id == "isinstance" and len(node.args) == 2:
+            cls = ast.unparse(node.args[1]).replace(" ", "")
+            t = fresh("i")
+            if cls in ("(int,bool)", "(bool,int)"):
+                return f"(bind {_pe(node.args[0], fresh)} (fun {t} => Ret (PBool (isinstance_int_bool {t}))))"
+            if cls == "slice":
+                return f"(bind {_pe(node.args[0], fresh)} (fun {t} => Ret (PBool (isinstance_slice {t}))))"
+            if cls in ("(type(None),type(Ellipsis))", "(type(Ellipsis),type(None))"):
+                return f"(bind {_pe(node.args[0], fresh)} (fun {t} => Ret (PBool (match {t} with PNone | PEllipsis => true | _ => false end))))"
+            raise Untranslatable("isinstance class " + cls)
+    raise Untranslatable("expression " + ast.unparse(node)[:80])
+
+
+def _ps(stmts, fresh) -> str:
+    """Statements of the per-item loop body -> Gallina term of type M pyval (the appended value)."""
+    if not stmts:
+        raise Untranslatable("control falls off the end of a branch")
+    s, rest = stmts[0], stmts[1:]
+    if isinstance(s, ast.If):
+        if rest:
+            raise Untranslatable("statements after an if")
+        c = fresh("c")
+        return f"(bind {_pe(s.test, fresh)} (fun {c} => if truthy {c} then {_ps(s.body, fresh)} else {_ps(s.orelse, fresh)}))"
+    if isinstance(s, (ast.Assign, ast.AnnAssign)):
+        tgt = s.targets[0] if isinstance(s, ast.Assign) else s.target
+        if not isinstance(tgt, ast.Name) or s.value is None:
+            raise Untranslatable("assignment target")
+        return f"(bind {_pe(s.value, fresh)} (fun v_{tgt.id} => {_ps(rest, fresh)}))"
+    if isinstance(s, ast.Expr) and isinstance(s.value, ast.Call) and ast.unparse(s.value.func) == "ret.append" and len(s.value.args) == 1:
+        if rest:
+            raise Untranslatable("statements after ret.append")
+        return _pe(s.value.args[0], fresh)
+    if isinstance(s, ast.Raise) and isinstance(s.exc, ast.Call) and isinstance(s.exc.func, ast.Name) \
+            and s.exc.func.id in ("TypeError", "IndexError", "ValueError"):
+        return f"(Raise {s.exc.func.id})"
+    raise Untranslatable("statement " + ast.unparse(s)[:80])
+
+
+def index_functions() -> str:
+    text, mod = src("ndonnx/_index.py")
+    fns = {n.name: n for n in mod.body if isinstance(n, ast.FunctionDef)}
+    fresh = _Fresh()
+    # ---- index_normalise: ret = []; for x in a: <body>; return tuple(ret)
+    fn = fns["index_normalise"]
+    body = [s for s in fn.body if not (isinstance(s, ast.Expr) and isinstance(s.value, ast.Constant))]
+    if not (len(body) == 3 and isinstance(body[0], (ast.Assign, ast.AnnAssign)) and isinstance(body[1], ast.For)
+            and isinstance(body[2], ast.Return) and ast.unparse(body[2].value) == "tuple(ret)"
+            and isinstance(body[1].target, ast.Name) and body[1].target.id == "x" and not body[1].orelse
+            and ast.unparse(body[1].iter) == fn.args.args[0].arg):
+        raise Untranslatable("index_normalise: unexpected statement structure")
+    item = _ps(body[1].body, fresh)
+    # ---- construct_index (fixed statement skeleton, expressions translated)
+    ci = fns["construct_index"]
+    cb = [s for s in ci.body if not (isinstance(s, ast.Expr) and isinstance(s.value, ast.Constant))]
+    if not (len(cb) == 3 and isinstance(cb[0], ast.Assign) and ast.unparse(cb[0]) == "index_ = index if isinstance(index, tuple) else (index,)"
+            and isinstance(cb[1], ast.If) and ast.unparse(cb[1].test) == "any((i is Ellipsis for i in index_))"
+            and not cb[1].orelse and ast.unparse(cb[2]) == "return index_normalise(index_)"):
+        raise Untranslatable("construct_index: unexpected statement structure: " + " | ".join(ast.unparse(s)[:60] for s in cb))
+    ib = cb[1].body
+    want = ["rank = get_rank(arr)", "ellipsis_position = index_.index(Ellipsis)"]
+    if [ast.unparse(s) for s in ib[:2]] != want or len(ib) != 4:
+        raise Untranslatable("construct_index: ellipsis branch")
+    # count_some = len([x for x in index_ if <pred>])
+    cs = ib[2]
+    if not (isinstance(cs, ast.Assign) and ast.unparse(cs.targets[0]) == "count_some" and isinstance(cs.value, ast.Call)
+            and ast.unparse(cs.value.func) == "len" and isinstance(cs.value.args[0], ast.ListComp)
+            and ast.unparse(cs.value.args[0].elt) == "x" and len(cs.value.args[0].generators) == 1
+            and ast.unparse(cs.value.args[0].generators[0].iter) == "index_" and len(cs.value.args[0].generators[0].ifs) == 1):
+        raise Untranslatable("construct_index: count_some")
+    pred = _pe(cs.value.args[0].generators[0].ifs[0], fresh)
+    # index_ = index_[:ellipsis_position] + tuple([<fill>] * (<n>)) + index_[<from>:]
+    asg = ib[3]
+    v = asg.value
+    try:
+        left, mid, right = v.left.left, v.left.right, v.right
+        assert ast.unparse(asg.targets[0]) == "index_"
+        assert isinstance(left, ast.Subscript) and ast.unparse(left.value) == "index_" and left.slice.lower is None
+        assert isinstance(right, ast.Subscript) and ast.unparse(right.value) == "index_" and right.slice.upper is None
+        assert isinstance(mid, ast.Call) and ast.unparse(mid.func) == "tuple" and isinstance(mid.args[0], ast.BinOp) and isinstance(mid.args[0].op, ast.Mult)
+        fill_list, count = mid.args[0].left, mid.args[0].right
+        assert isinstance(fill_list, ast.List) and len(fill_list.elts) == 1
+    except (AssertionError, AttributeError):
+        raise Untranslatable("construct_index: expansion statement " + ast.unparse(asg)[:120])
+    env = {"rank": "rank", "count_some": "count_some", "ellipsis_position": "epos"}
+    fill = _pe(fill_list.elts[0], fresh)
+    upto = _zexpr(left.slice.upper, env)
+    cnt = _zexpr(count, env)
+    frm = _zexpr(right.slice.lower, env)
+    # ---- _CoreArray._normalise_index rank check
+    t2, m2 = src("ndonnx/_corearray.py")
+    cls = [n for n in m2.body if isinstance(n, ast.ClassDef) and n.name == "_CoreArray"][0]
+    ni = [m for m in cls.body if isinstance(m, ast.FunctionDef) and m.name == "_normalise_index"][0]
+    els = ni.body[0].orelse if isinstance(ni.body[0], ast.If) else None
+    if els is None or len(els) != 4 or ast.unparse(els[0]) != "index = construct_index(self, index)" \
+            or not ast.unparse(els[1]).startswith("indexing_expressions = len(tuple((idx for idx in index if ") \
+            or ast.unparse(els[3]) != "return index":
+        raise Untranslatable("_normalise_index: structure")
+    gen = els[1].value.args[0].args[0]
+    if not (isinstance(gen, ast.GeneratorExp) and ast.unparse(gen.elt) == "idx" and len(gen.generators[0].ifs) == 1):
+        raise Untranslatable("_normalise_index: counting expression")
+    cpred = _pe(gen.generators[0].ifs[0], fresh).replace("v_idx", "v_x")
+    chk = els[2]
+    if not (isinstance(chk, ast.If) and isinstance(chk.test, ast.Compare) and len(chk.body) == 1 and isinstance(chk.body[0], ast.Raise)):
+        raise Untranslatable("_normalise_index: rank check")
+    cmpop = {ast.NotEq: "negb (ndim =? cnt)%Z", ast.Eq: "(ndim =? cnt)%Z", ast.Lt: "(ndim <? cnt)%Z", ast.Gt: "(cnt <? ndim)%Z",
+             ast.LtE: "(ndim <=? cnt)%Z", ast.GtE: "(cnt <=? ndim)%Z"}.get(type(chk.test.ops[0]))
+    if cmpop is None or ast.unparse(chk.test.left) != "self.ndim" or ast.unparse(chk.test.comparators[0]) != "indexing_expressions":
+        raise Untranslatable("_normalise_index: rank test " + ast.unparse(chk.test))
+    exc = chk.body[0].exc.func.id
+    hdr = ("From Coq Require Import List ZArith Bool.\nFrom ND Require Import Ndx.PyVal.\nImport ListNotations.\nOpen Scope Z_scope.\n\n")
+    return (hdr
+            + f"Definition gen_normalise_item (v_x : pyval) : M pyval :=\n  {item}.\n\n"
+            + "Definition gen_index_normalise (a : list pyval) : M (list pyval) := mmap gen_normalise_item a.\n\n"
+            + f"Definition gen_counts_as_some (v_x : pyval) : M pyval :=\n  {pred}.\n"
+            + f"Definition gen_fill : M pyval := {fill}.\n"
+            + f"Definition gen_prefix_upto (rank count_some epos : Z) : Z := {upto}.\n"
+            + f"Definition gen_fill_count (rank count_some epos : Z) : Z := {cnt}.\n"
+            + f"Definition gen_suffix_from (rank count_some epos : Z) : Z := {frm}.\n\n"
+            + f"Definition gen_counts_as_expression (v_x : pyval) : M pyval :=\n  {cpred}.\n"
+            + f"Definition gen_rank_mismatch (ndim cnt : Z) : bool := {cmpop}.\n"
+            + f"Definition gen_rank_exn : exn := {exc}.\n")
